@@ -1,6 +1,283 @@
-(* C12 - Delete, update and merge_insert follow SQL semantics on the model table.  (skeleton; theorems follow) *)
-From LanceV Require Import Common.Base Table.Model_DML Table.Proofs_DML.
+(* C12 - Delete, update and merge_insert follow SQL semantics on the model table.
+   Property theorems only; model in Table/Model_DML.v, proofs in Table/Proofs_DML.v.
 
-Theorem C12_placeholder_partial : True.
-Proof. exact I. Qed.
-Print Assumptions C12_placeholder_partial.
+   The table is a list of fragments, a fragment a list of physical slots (None = masked by the deletion
+   vector); `abs` is what a scan returns.  Cells are `option Z`, None = NULL.  `eval_b` / `eval_v` are the
+   three-valued reference semantics of the expression fragment (=,<>,<,<=,>,>=, AND, OR, NOT, IS NULL, IN,
+   BETWEEN, +,-,* on Z, literals incl. NULL).  PARTIAL in one respect, stated in checks.d/C12.json: in the
+   implementation DataFusion evaluates the expressions; that it implements `eval_b`/`eval_v` on this fragment is
+   assumed here and is what the end-to-end correspondence tests.
+
+   Quantifiers are real: any table (any fragments / deletion vectors), any predicate and assignments of the
+   AST, any source (duplicates, NULL keys, any sub-schema containing the keys), any settings. *)
+From LanceV Require Import Common.Base Table.Model_DML Table.Proofs_DML.
+From Coq Require Import Permutation.
+
+(* ------------------------------------------------------------------ DELETE *)
+(* delete(p) removes exactly the rows on which p is TRUE; rows where p is FALSE or NULL stay, in their old order *)
+Theorem C12_delete_exact : forall p ct,
+  abs (c_delete p ct) = filter (fun r => negb (tv_eqb (eval_b r p) TT)) (abs ct)
+  /\ (forall r, In r (abs (c_delete p ct)) <-> In r (abs ct) /\ eval_b r p <> TT).
+Proof.
+  intros p ct. rewrite abs_c_delete. split; [apply a_delete_spec|]. intro r. apply a_delete_in.
+Qed.
+Print Assumptions C12_delete_exact.
+
+(* ------------------------------------------------------------------ UPDATE *)
+(* update(set, where p): `asg'` is the order in which the HashMap of assignments happens to iterate.  When no
+   assignment reads a column written by another one, every order gives the SQL result: the rows where p is TRUE
+   are rewritten with all right-hand sides evaluated on the OLD row, all other rows are untouched, the row count
+   is preserved.  Order guaranteed by the code (RewriteRows): untouched rows first, in their old order, then the
+   rewritten rows in their old relative order. *)
+Theorem C12_update_exact : forall p asg asg' ct,
+  Permutation asg asg' -> NoDup (map fst asg) ->
+  Known_C12_update_reads_assigned_column asg = false ->
+  abs (c_update p asg' ct)
+    = filter (fun r => negb (sel p r)) (abs ct) ++ map (apply_simul asg) (filter (sel p) (abs ct))
+  /\ Permutation (abs (c_update p asg' ct)) (sql_update p asg (abs ct))
+  /\ length (abs (c_update p asg' ct)) = length (abs ct).
+Proof.
+  intros p asg asg' ct P ND K.
+  assert (E : forall r, apply_seq asg' r = apply_simul asg r) by (intro r; apply apply_seq_any_order; assumption).
+  rewrite abs_c_update. split; [|split].
+  - unfold a_update. f_equal. apply map_ext. exact E.
+  - eapply Permutation_trans; [apply a_update_perm|]. unfold sql_update.
+    erewrite map_ext; [apply Permutation_refl|]. intro r. cbn beta. rewrite E. reflexivity.
+  - apply a_update_length.
+Qed.
+Print Assumptions C12_update_exact.
+
+(* inside the class: UPDATE SET c1 = c2, c2 = c1 gives the SQL result in NO iteration order *)
+Theorem C12_update_reads_assigned_column_refuted : exists asg r,
+  Known_C12_update_reads_assigned_column asg = true /\ NoDup (map fst asg) /\
+  forall asg', In asg' (perms asg) -> apply_seq asg' r <> apply_simul asg r.
+Proof.
+  exists [(1%nat, VCol 2); (2%nat, VCol 1)], [Some 1%Z; Some 10%Z; Some 20%Z].
+  split; [reflexivity|]. split; [repeat constructor; cbn; intuition congruence|].
+  intros asg' H. cbn in H. destruct H as [<-|[<-|[]]]; vm_compute; congruence.
+Qed.
+Print Assumptions C12_update_reads_assigned_column_refuted.
+
+(* ------------------------------------------------------------------ MERGE *)
+(* merge_insert as coded (path selection, join, action per joined row, duplicate detection, RewriteRows or
+   RewriteColumns) yields exactly the SQL MERGE written independently in `sql_merge`: same rows as a multiset,
+   same inserted/updated/deleted counts, or the same error (EDup: more than one source row would update one target
+   row; EFail: WhenMatched::Fail hit) - in which case no new table exists.  For all tables, all sources, all
+   well-formed settings outside the four known-finding classes.  The statement does not mention `m_indexed`
+   on the SQL side: the result is independent of whether the key is indexed. *)
+Theorem C12_merge_is_sql_merge : forall st ct src,
+  wf_settings st = true ->
+  Known_C12_null_key_source_rows_skipped st src = false ->
+  Known_C12_null_key_target_rows_kept st (abs ct) = false ->
+  Known_C12_fail_off_fast_path st = false ->
+  Known_C12_update_if_partial_schema_panics st = false ->
+  match c_merge st ct src, sql_merge st (abs ct) src with
+  | inl ct', inl r => Permutation (abs ct') (r_rows r) /\ merge_stats st ct src = r_stats r
+  | inr e, inr e' => e = e'
+  | _, _ => False
+  end.
+Proof.
+  intros st ct src WF K1 K2 K3 K4. rewrite <- (abs_arows ct) in K2 |- *.
+  pose proof (merge_is_sql_merge st (arows ct) src WF (arows_nodup ct) K1 K2 K3 K4) as M.
+  pose proof (c_merge_abs st ct src) as C. unfold merge_stats.
+  destruct (c_merge st ct src) as [ct'|e]; destruct (a_merge st (arows ct) src) as [r|e']; try contradiction;
+    destruct (sql_merge st (map snd (arows ct)) src) as [r2|e2]; cbn [mres_equiv] in M; try contradiction.
+  - rewrite C. exact M.
+  - congruence.
+Qed.
+Print Assumptions C12_merge_is_sql_merge.
+
+(* the same on rows with arbitrary distinct identities *)
+Theorem C12_merge_abstract : forall st tgt src,
+  wf_settings st = true -> NoDup (map fst tgt) ->
+  Known_C12_null_key_source_rows_skipped st src = false ->
+  Known_C12_null_key_target_rows_kept st (map snd tgt) = false ->
+  Known_C12_fail_off_fast_path st = false ->
+  Known_C12_update_if_partial_schema_panics st = false ->
+  mres_equiv (a_merge st tgt src) (sql_merge st (map snd tgt) src).
+Proof. exact merge_is_sql_merge. Qed.
+Print Assumptions C12_merge_abstract.
+
+(* the concrete side: deletion vectors + new fragments realise the abstract result *)
+Theorem C12_merge_concrete : forall st ct src,
+  match c_merge st ct src, a_merge st (arows ct) src with
+  | inl ct', inl r => abs ct' = r_rows r
+  | inr e, inr e' => e = e'
+  | _, _ => False
+  end.
+Proof. exact c_merge_abs. Qed.
+Print Assumptions C12_merge_concrete.
+
+(* ------------------------------------------------------------------ counts *)
+Theorem C12_counts : forall ct f,
+  count_rows (Some f) ct = length (filter (fun r => is_tt (eval_b r f)) (abs ct))
+  /\ count_rows None ct = length (abs ct)
+  /\ count_deleted ct = fold_right (fun fr acc => length (filter is_none fr) + acc)%nat O ct
+  /\ (physical ct = count_rows None ct + count_deleted ct)%nat.
+Proof.
+  intros ct f. split; [reflexivity|]. split; [reflexivity|]. split; [reflexivity|]. apply physical_split.
+Qed.
+Print Assumptions C12_counts.
+
+(* and they agree with the table an operation leaves behind *)
+Theorem C12_counts_after : forall ct p asg f,
+  count_rows (Some f) (c_delete p ct) = length (filter (sel f) (a_delete p (abs ct)))
+  /\ (count_rows None (c_delete p ct) + length (filter (sel p) (abs ct)) = count_rows None ct)%nat
+  /\ count_rows (Some f) (c_update p asg ct) = length (filter (sel f) (a_update p asg (abs ct)))
+  /\ count_rows None (c_update p asg ct) = count_rows None ct
+  /\ (physical (c_update p asg ct) = count_rows None ct + count_deleted (c_update p asg ct))%nat.
+Proof.
+  intros ct p asg f. unfold count_rows. rewrite abs_c_delete, abs_c_update. repeat split; try reflexivity.
+  - unfold a_delete. apply filter_length_split.
+  - apply a_update_length.
+  - rewrite physical_split, abs_c_update, a_update_length. reflexivity.
+Qed.
+Print Assumptions C12_counts_after.
+
+(* ------------------------------------------------------------------ the action table *)
+(* The CASE expression of merge_insert_action, transcribed, against the specification table, for ALL inputs:
+   WhenMatched in {UpdateAll, UpdateIf c, DoNothing, Fail} x insert_not_matched x WhenNotMatchedBySource in
+   {Keep, Delete, DeleteIf c} x source_has_key x target row present x value of the UpdateIf condition x value of
+   the DeleteIf condition (4*2*3*2*2*3*3 = 864 points, by computation).  They agree exactly on `table_domain`:
+   everywhere except the F19 cell and the fall-through of a matched row into the delete clause, which needs
+   WhenNotMatchedBySource <> Keep and is therefore never evaluated (can_use_create_plan). *)
+Theorem C12_action_table : forall wm ins ns has_key tp cm cd,
+  (table_domain wm ins ns has_key tp cm cd = true ->
+     case_table wm ins ns has_key tp cm cd = spec_table wm ins ns has_key tp cm cd)
+  /\ (table_domain wm ins ns has_key tp cm cd = false ->
+     case_table wm ins ns has_key tp cm cd <> spec_table wm ins ns has_key tp cm cd)
+  /\ (wm <> WmDoNothing -> ns = NsKeep -> (ins && negb has_key && negb tp) = false ->
+     case_table wm ins ns has_key tp cm cd = spec_table wm ins ns has_key tp cm cd).
+Proof.
+  intros. split; [apply action_table_agrees|]. split; [apply action_table_differs|].
+  intros Hwm -> H. apply action_table_fast_path; assumption.
+Qed.
+Print Assumptions C12_action_table.
+
+(* ------------------------------------------------------------------ the known-finding classes are real *)
+Definition st0 (wm : when_matched) (ins : bool) (ns : when_nmbs) (idx : bool) : msettings :=
+  {| m_on := [O]; m_scols := [O; 1%nat]; m_ncols := 2%nat; m_wm := wm; m_ins := ins; m_ns := ns; m_indexed := idx |}.
+Definition tgt0 : ctable := [[Some [Some 1%Z; Some 10%Z]; Some [Some 2%Z; Some 20%Z]; Some [None; Some 30%Z]]].
+
+(* F19: target k=[1,2,NULL], source k=[1,NULL,7,NULL], on k, UpdateAll + InsertAll: 4 rows instead of 6 *)
+Theorem C12_null_key_source_rows_skipped_refuted : exists st ct src,
+  wf_settings st = true /\ Known_C12_null_key_source_rows_skipped st src = true /\
+  Known_C12_null_key_target_rows_kept st (abs ct) = false /\ Known_C12_fail_off_fast_path st = false /\
+  Known_C12_update_if_partial_schema_panics st = false /\
+  exists ct' r, c_merge st ct src = inl ct' /\ sql_merge st (abs ct) src = inl r /\
+                length (abs ct') = 4%nat /\ length (r_rows r) = 6%nat.
+Proof.
+  exists (st0 WmUpdateAll true NsKeep false), tgt0,
+         [[Some 1%Z; Some 100%Z]; [None; Some 200%Z]; [Some 7%Z; Some 700%Z]; [None; Some 201%Z]].
+  do 5 (split; [reflexivity|]). eexists. eexists. split; [vm_compute; reflexivity|]. split; [vm_compute; reflexivity|].
+  split; reflexivity.
+Qed.
+Print Assumptions C12_null_key_source_rows_skipped_refuted.
+
+(* a NULL-key target row survives WhenNotMatchedBySource::Delete *)
+Theorem C12_null_key_target_rows_kept_refuted : exists st ct src,
+  wf_settings st = true /\ Known_C12_null_key_target_rows_kept st (abs ct) = true /\
+  Known_C12_null_key_source_rows_skipped st src = false /\ Known_C12_fail_off_fast_path st = false /\
+  Known_C12_update_if_partial_schema_panics st = false /\
+  exists ct' r, c_merge st ct src = inl ct' /\ sql_merge st (abs ct) src = inl r /\
+                length (abs ct') = 2%nat /\ length (r_rows r) = 1%nat.
+Proof.
+  exists (st0 WmUpdateAll false NsDelete false), tgt0, [[Some 1%Z; Some 100%Z]].
+  do 5 (split; [reflexivity|]). eexists. eexists. split; [vm_compute; reflexivity|]. split; [vm_compute; reflexivity|].
+  split; reflexivity.
+Qed.
+Print Assumptions C12_null_key_target_rows_kept_refuted.
+
+(* WhenMatched::Fail with an indexed key updates instead of failing *)
+Theorem C12_fail_off_fast_path_refuted : exists st ct src,
+  wf_settings st = true /\ Known_C12_fail_off_fast_path st = true /\
+  Known_C12_null_key_source_rows_skipped st src = false /\ Known_C12_null_key_target_rows_kept st (abs ct) = false /\
+  Known_C12_update_if_partial_schema_panics st = false /\
+  (exists ct', c_merge st ct src = inl ct') /\ sql_merge st (abs ct) src = inr EFail.
+Proof.
+  exists (st0 WmFail true NsKeep true), [[Some [Some 1%Z; Some 10%Z]; Some [Some 2%Z; Some 20%Z]]],
+         [[Some 1%Z; Some 100%Z]; [Some 9%Z; Some 900%Z]].
+  do 5 (split; [reflexivity|]). split; [eexists; vm_compute; reflexivity|]. vm_compute. reflexivity.
+Qed.
+Print Assumptions C12_fail_off_fast_path_refuted.
+
+(* WhenMatched::UpdateIf with a partial source schema panics where SQL MERGE updates *)
+Theorem C12_update_if_partial_schema_panics_refuted : exists st ct src,
+  wf_settings st = true /\ Known_C12_update_if_partial_schema_panics st = true /\
+  Known_C12_null_key_source_rows_skipped st src = false /\ Known_C12_null_key_target_rows_kept st (abs ct) = false /\
+  Known_C12_fail_off_fast_path st = false /\
+  c_merge st ct src = inr EPanic /\ exists r, sql_merge st (abs ct) src = inl r.
+Proof.
+  exists {| m_on := [O]; m_scols := [O; 1%nat]; m_ncols := 3%nat;
+            m_wm := WmUpdateIf (BCmp CGt (VCol 1) (VCol 4)); m_ins := true; m_ns := NsKeep; m_indexed := false |},
+         [[Some [Some 1%Z; Some 10%Z; Some 20%Z]; Some [Some 2%Z; Some 30%Z; Some 40%Z]]],
+         [[Some 1%Z; Some 100%Z]; [Some 9%Z; Some 900%Z]].
+  do 5 (split; [reflexivity|]). split; [vm_compute; reflexivity|]. eexists. vm_compute. reflexivity.
+Qed.
+Print Assumptions C12_update_if_partial_schema_panics_refuted.
+
+(* ------------------------------------------------------------------ non-vacuity and sanity sweeps (tests, not theorems) *)
+(* every hypothesis of C12_merge_is_sql_merge holds on a merge that updates, inserts and deletes:
+   target k = [1,2,3,4] (4 deleted beforehand), source k = [1,7,7], UpdateAll + InsertAll + DeleteIf(x > 25) *)
+Example C12_merge_nonvacuous :
+  let st := st0 WmUpdateAll true (NsDeleteIf (BCmp CGt (VCol 1) (VLit (Some 25%Z)))) false in
+  let ct := [[Some [Some 1%Z; Some 10%Z]; Some [Some 2%Z; Some 20%Z]]; [Some [Some 3%Z; Some 30%Z]; None]] in
+  let src := [[Some 1%Z; Some 100%Z]; [Some 7%Z; Some 700%Z]; [Some 7%Z; Some 701%Z]] in
+  wf_settings st = true /\ Known_C12_null_key_source_rows_skipped st src = false /\
+  Known_C12_null_key_target_rows_kept st (abs ct) = false /\ Known_C12_fail_off_fast_path st = false /\
+  Known_C12_update_if_partial_schema_panics st = false /\
+  match c_merge st ct src with
+  | inl ct' => same_rows (abs ct') [[Some 1%Z; Some 100%Z]; [Some 2%Z; Some 20%Z]; [Some 7%Z; Some 700%Z]; [Some 7%Z; Some 701%Z]] = true
+               /\ merge_stats st ct src = (2, 1, 1)%N /\ shape ct' = [(2, 1); (3, 0)]%N
+  | inr _ => False
+  end.
+Proof. vm_compute. repeat split; reflexivity. Qed.
+
+(* two source rows matching one target row: error, and no table is produced *)
+Example C12_duplicate_match_rejected :
+  c_merge (st0 WmUpdateAll true NsKeep false) tgt0 [[Some 1%Z; Some 5%Z]; [Some 1%Z; Some 6%Z]] = inr EDup
+  /\ sql_merge (st0 WmUpdateAll true NsKeep false) (abs tgt0) [[Some 1%Z; Some 5%Z]; [Some 1%Z; Some 6%Z]] = inr EDup.
+Proof. split; vm_compute; reflexivity. Qed.
+
+(* exhaustive small-universe sweep of the merge statement (boolean form): keys in {NULL,1,2}, tables and sources of
+   at most 2 rows, every setting (UpdateIf source.x > target.x, DeleteIf x = 0), indexed or not, full or key-only
+   source schema: outside the classes model and SQL agree, 13*13*96 = 16224 merges *)
+Definition mres_eqb (a b : mresult + merr) : bool :=
+  match a, b with
+  | inl r1, inl r2 => same_rows (r_rows r1) (r_rows r2)
+                      && (let '(a1, b1, c1) := r_stats r1 in let '(a2, b2, c2) := r_stats r2 in N.eqb a1 a2 && N.eqb b1 b2 && N.eqb c1 c2)
+  | inr e1, inr e2 => merr_eqb e1 e2
+  | _, _ => false
+  end.
+Definition sweep_rows : list row := [[None; Some 0%Z]; [Some 1%Z; Some 0%Z]; [Some 2%Z; Some 1%Z]].
+Definition lists_le2 {A} (u : list A) : list (list A) :=
+  [[]] ++ map (fun x => [x]) u ++ flat_map (fun x => map (fun y => [x; y]) u) u.
+Definition sweep_settings : list msettings :=
+  flat_map (fun wm => flat_map (fun ins => flat_map (fun ns => flat_map (fun idx => map (fun scols =>
+    {| m_on := [O]; m_scols := scols; m_ncols := 2%nat; m_wm := wm; m_ins := ins; m_ns := ns; m_indexed := idx |})
+    [[O; 1%nat]; [O]]) [false; true])
+    [NsKeep; NsDelete; NsDeleteIf (BCmp CEq (VCol 1) (VLit (Some 0%Z)))]) [false; true])
+    [WmUpdateAll; WmUpdateIf (BCmp CGt (VCol 1) (VCol 3)); WmDoNothing; WmFail].
+Example C12_merge_sweep :
+  forallb (fun st => forallb (fun tgt => forallb (fun src0 =>
+    let src := map (fun s => map (fun c => nth c s None) (m_scols st)) src0 in
+    let ct := [map Some tgt] in
+    negb (wf_settings st) || Known_C12_null_key_source_rows_skipped st src || Known_C12_null_key_target_rows_kept st tgt
+    || Known_C12_fail_off_fast_path st || Known_C12_update_if_partial_schema_panics st
+    || mres_eqb (a_merge st (arows ct) src) (sql_merge st tgt src))
+    (lists_le2 sweep_rows)) (lists_le2 sweep_rows)) sweep_settings = true.
+Proof. vm_compute. reflexivity. Qed.
+
+(* sweep of the update statement: every order of every pair of assignments over 3 columns drawn from a small
+   expression universe, on every row over {NULL,0,1}: outside the class all orders give the SQL row *)
+Definition sweep_exprs : list vexpr := [VCol 0; VCol 1; VCol 2; VLit None; VAdd (VCol 0) (VCol 1); VMul (VCol 2) (VLit (Some 2%Z))].
+Definition sweep_cells : list cell := [None; Some 0%Z; Some 1%Z].
+Example C12_update_sweep :
+  forallb (fun c1 => forallb (fun c2 => forallb (fun e1 => forallb (fun e2 =>
+    let asg := [(c1, e1); (c2, e2)] in
+    Nat.eqb c1 c2 || Known_C12_update_reads_assigned_column asg
+    || forallb (fun a => forallb (fun b => forallb (fun c =>
+         forallb (fun asg' => row_eqb (apply_seq asg' [a; b; c]) (apply_simul asg [a; b; c])) (perms asg))
+         sweep_cells) sweep_cells) sweep_cells)
+    sweep_exprs) sweep_exprs) [O; 1%nat; 2%nat]) [O; 1%nat; 2%nat] = true.
+Proof. vm_compute. reflexivity. Qed.
